@@ -474,10 +474,22 @@ type ServiceSafePoint struct {
 	SafePoint uint64 `json:"safe_point"`
 }
 
+// checkServiceID rejects service ids that path.Join would not keep as a single element below
+// gc/safe_point/service/ ("..", "x/../gc_worker", ...): such an id would address another key.
+func checkServiceID(serviceID string) error {
+	if strings.Contains(serviceID, "/") || serviceID == "." || serviceID == ".." {
+		return errors.New("invalid service id of service safepoint")
+	}
+	return nil
+}
+
 // SaveServiceGCSafePoint saves a GC safepoint for the service
 func (s *Storage) SaveServiceGCSafePoint(ssp *ServiceSafePoint) error {
 	if ssp.ServiceID == "" {
 		return errors.New("service id of service safepoint cannot be empty")
+	}
+	if err := checkServiceID(ssp.ServiceID); err != nil {
+		return err
 	}
 
 	if ssp.ServiceID == gcWorkerServiceSafePointID && ssp.ExpiredAt != math.MaxInt64 {
@@ -497,6 +509,9 @@ func (s *Storage) SaveServiceGCSafePoint(ssp *ServiceSafePoint) error {
 func (s *Storage) RemoveServiceGCSafePoint(serviceID string) error {
 	if serviceID == gcWorkerServiceSafePointID {
 		return errors.New("cannot remove service safe point of gc_worker")
+	}
+	if err := checkServiceID(serviceID); err != nil {
+		return err
 	}
 	key := path.Join(gcPath, "safe_point", "service", serviceID)
 	return s.Remove(key)
